@@ -88,13 +88,38 @@ def rand_coeff(rng, kind=None):
     return c if (re != 0 and im != 0) else complex(re or 1.0, im or -0.5)
 
 
+class ImplTimeout(Exception):
+    pass
+
+
+def _alarm(signum, frame):
+    raise ImplTimeout()
+
+
+CALL_TIMEOUT_S = 10
+
+
 def call(stream, what, case, f):
-    """run the implementation; an unexpected exception on an admissible input is a violation"""
+    """run the implementation; an unexpected exception (or non-termination within CALL_TIMEOUT_S) on an
+    admissible input is a violation"""
+    import signal
+    if sum(1 for v in stream.violations if 'did not return within' in v['what']) >= 3:
+        # the implementation does not terminate on this stream: stop driving it (already a violation)
+        stream.count('skipped-after-timeouts')
+        return False, None
+    old = signal.signal(signal.SIGALRM, _alarm)
+    signal.setitimer(signal.ITIMER_REAL, CALL_TIMEOUT_S)
     try:
         return True, f()
+    except ImplTimeout:
+        stream.violate('%s did not return within %d s' % (what, CALL_TIMEOUT_S), case, {})
+        return False, None
     except ERRS as e:
         stream.violate('%s raised %s: %s' % (what, type(e).__name__, str(e)[:200]), case, {})
         return False, None
+    finally:
+        signal.setitimer(signal.ITIMER_REAL, 0)
+        signal.signal(signal.SIGALRM, old)
 
 
 class Batch:
